@@ -101,6 +101,10 @@ def main():
         out.append({'e': 'SampleFailed', 'note': 'no failure reached the caller'})
       except OSError:
         out.append({'e': 'SampleFailed'})
+      except Exception as ex:  # pylint: disable=broad-except
+        # some other error than the injected one: reported like a sample that returned nonsense
+        out.append({'e': 'Sample', 'ids': [], 'keys': [], 'no_repeat': False, 'ids_from_dataset': False, 'dataset_matches_id': False, 'id_types_ok': False,
+                    'cohort_size_ok': False, 'digest': 'exception ' + type(ex).__name__, 'error': f'{type(ex).__name__}: {str(ex)[:80]}'})
       flaky.armed = False
     elif op['op'] == 'set_round':
       sampler.set_round_num(op['r'])
